@@ -33,7 +33,8 @@ def drive (body impl : String) : Verdict :=
   let get := fun (k : String) => ((kv.find? (fun p => p.head? == some k)).bind (fun p => p[1]?)).getD ""
   let own := showRes (some outcome)
   if sched == "steal" then
-    -- a second pool of the process runs the task; which pool runs it is the environment's choice
+    -- a second pool of the process runs the task (which pool runs it is the environment's choice); results are
+    -- process-wide, so the join on the submitting pool gets it
     let mo := s!"res={own} prompt=1 ran=1 stolen={get "stolen"} other=none"
     let bad : List String :=
       if get "ran" == "1" && get "res" != own then
